@@ -108,13 +108,8 @@ impl OutgoingMessageOrchestrator {
               Some(p) => p,
               None => return Err((msgs, ZmqError::ResourceLimitReached)),
             };
-            match block_peer.iface.send_multipart_owned(msgs).await {
-              Ok(()) => return Ok(()),
-              Err((returned, ZmqError::ResourceLimitReached)) => {
-                return Err((returned, ZmqError::ResourceLimitReached));
-              }
-              Err((_, e)) => return Err((FrameBatch::new(), e)),
-            }
+            // On failure (would-block, timeout, closed) the refused batch is handed back as is.
+            return block_peer.iface.send_multipart_owned(msgs).await;
           }
         }
         Err((_, e)) => return Err((FrameBatch::new(), e)),
